@@ -339,6 +339,9 @@ func (ci *crdIpam) ConfigurePool(floatIPs []*FloatingIPPool) error {
 			len(ci.unallocatedFIPs), len(ci.allocatedFIPs))
 	}()
 	sort.Sort(FloatingIPSlice(floatIPs))
+	// hold the lock while listing, otherwise an ip allocated after the list is dropped from the rebuilt cache
+	ci.cacheLock.Lock()
+	defer ci.cacheLock.Unlock()
 	ips, err := ci.listFloatingIPs()
 	if err != nil {
 		glog.Errorf("fail to list floatIP %v", err)
@@ -376,8 +379,6 @@ func (ci *crdIpam) ConfigurePool(floatIPs []*FloatingIPPool) error {
 			deletingIPs = append(deletingIPs, ip.Name)
 		}
 	}
-	ci.cacheLock.Lock()
-	defer ci.cacheLock.Unlock()
 	ci.FloatingIPs = floatIPs
 	ci.allocatedFIPs = tmpCacheAllocated
 	if len(deletingIPs) > 0 {
